@@ -624,7 +624,27 @@ impl<'t, 'd> Gen<'t, 'd> {
                 2 => self.case(frame, Ty::Text, d),
                 _ => self.expr(frame, Ty::Text, 0),
             },
-            Ty::Bool => match self.t.choose(8) {
+            Ty::Bool => match self.t.choose(9) {
+                8 => {
+                    // a two-sided range check over one operand, bounds in either order, inclusive or not
+                    let ty = if self.t.chance(3, 4) { Ty::Int } else { Ty::Float };
+                    let e = self.expr(frame, ty, d.min(1));
+                    let (lo, hi) = if ty == Ty::Int {
+                        let lo = self.t.range(-2, 3);
+                        (Expr::int(lo), Expr::int(lo + self.t.range(0, 4)))
+                    } else {
+                        let lo = self.t.range(-4, 6) as f64 / 2.0 + 0.25;
+                        (Expr::Lit(Val::Float(lo)), Expr::Lit(Val::Float(lo + self.t.range(0, 6) as f64 / 2.0)))
+                    };
+                    let (ge, le) = if self.t.chance(3, 4) { (BinOp::Gte, BinOp::Lte) } else { (BinOp::Gt, BinOp::Lt) };
+                    let lower = Expr::bin(ge, e.clone(), lo);
+                    let upper = Expr::bin(le, e, hi);
+                    if self.t.chance(1, 2) {
+                        Expr::bin(BinOp::And, lower, upper)
+                    } else {
+                        Expr::bin(BinOp::And, upper, lower)
+                    }
+                }
                 0 | 1 => {
                     let op = *self.t.pick(&[
                         BinOp::Eq,
